@@ -538,7 +538,26 @@ func genMulti(r *rng.R) fw.Case {
 	if mon {
 		tags = append(tags, "monitored")
 	}
-	return mkMultiCase(items, tags)
+	c := mkMultiCase(items, tags)
+	if len(items) >= 2 && r.Chance(1, 2) {
+		// the same leaves were set before, each to its neighbour's value: with a colliding group the earlier
+		// value has the same stored bytes and type as the new one and differs in the type options only
+		// (sign, precision, member lengths) - the stores must still end up with the new value
+		prev := make([]leafItem, len(items))
+		for i := range items {
+			j := i ^ 1
+			if j >= len(items) {
+				j = i
+			}
+			prev[i] = items[j]
+		}
+		ok := true
+		if ok {
+			c.Script = []string{strings.Replace(multiLine(prev), "value.e2em", "value.e2eprev", 1), c.Script[0]}
+			c.Tags = append(c.Tags, "overwrites-earlier-set")
+		}
+	}
+	return c
 }
 
 func gen(r *rng.R, tier string) fw.Case {
